@@ -3079,6 +3079,8 @@ def run(ctx):   # noqa: F811
     guarded(ctx, "mhn-stream", c05_mhn.run_mhn_stream, ctx, cuqi, th, sys.modules[__name__])
     from harness.props import c05_gmrf
     guarded(ctx, "gmrf-large", c05_gmrf.run_gmrf_large, ctx, cuqi, th, sys.modules[__name__])
+    from harness.props import c05_single
+    guarded(ctx, "single-draw", c05_single.run_single, ctx, cuqi, th, sys.modules[__name__])
     from harness.props import c05_callforms
     guarded(ctx, "call-forms", c05_callforms.run_call_forms, ctx, cuqi, th, sys.modules[__name__])
     # G8: every sample object returned during the whole run still holds the numbers it held when it was returned
